@@ -113,8 +113,10 @@ def decl_src(X, exported):
     return (tdecl + "%(ex)s%(X)s_cell: [int...] = [0]\n"
             "%(ex)s%(X)s_n%(tint)s = 0\n"
             "%(X)s_hid = 0\n"
+            "%(ex)s%(X)s_op%(tint)s = 0\n"
             "%(ex)s%(X)s_bump%(tfn)s = fn() -> int {\n"
             "  %(X)s_cell[0] = %(X)s_cell[0] + 1\n"
+            "  %(X)s_op += 1\n"
             "  modify %(X)s_n = %(X)s_n + 1\n"
             "  modify %(X)s_hid = %(X)s_hid + 1\n"
             "  %(X)s_bt = %(X)s_cell[0]\n"
@@ -122,7 +124,7 @@ def decl_src(X, exported):
             "}\n"
             "%(ex)s%(X)s_peek%(tfn)s = fn() -> int {\n"
             "  %(X)s_pt = %(X)s_cell[0]\n"
-            "  return %(X)s_pt * 100 + %(X)s_hid\n"
+            "  return %(X)s_pt * 100 + %(X)s_hid + %(X)s_op * 10000\n"
             "}\n") % {"ex": ex, "X": X, "tint": ty("int"), "tfn": ty("fn() -> int")}
 
 
@@ -157,7 +159,7 @@ class Sim:
         return self.cnt.get(k, 0)
 
     def peek(self, k):
-        return self.count(k) * 101
+        return self.count(k) * 10101
 
     def via(self, k):
         s = 0
@@ -330,8 +332,9 @@ def render_stmt(spec, X, st, ind=""):
         if kind == "T":
             return ["%simport type %s_T from %s" % (ind, mn, path)]
         if kind == "M":
-            return ["%simport type %s_T, %s_bump, %s_peek, %s_cell, %s_via from %s" % (ind, mn, mn, mn, mn, mn, path)]
-        return ["%simport %s_bump, %s_peek, %s_cell, %s_via from %s" % (ind, mn, mn, mn, mn, path)]
+            return ["%simport type %s_T, %s_bump, %s_peek, %s_cell, %s_via, %s_op from %s" % (ind, mn, mn, mn, mn, mn, mn, path)]
+        # `X_op` imported by name is the importer's own copy: the module's `X_op += 1` must still reach the module's variable
+        return ["%simport %s_bump, %s_peek, %s_cell, %s_via, %s_op from %s" % (ind, mn, mn, mn, mn, mn, path)]
     if k == "driveS":
         mn = NAMES[st[1]]
         return ['%sprint "%s %s.bump " + %s.%s_bump()' % (ind, xn, mn, mn, mn),
@@ -608,8 +611,8 @@ def local_copy_cases():
             'print "%(X)s ma.cell " + %(X)s_c2[0]',
             'print "%(X)s n " + ma_n',
             'print "%(X)s cell " + ma_cell[0]']
-    exp = ['%(X)s n 1', '%(X)s ma.peek 101', '%(X)s n 5', '%(X)s ma.n 1', '%(X)s n 10', '%(X)s ma.n 1', '%(X)s peek 0',
-           '%(X)s cell 9', '%(X)s ma.cell 1', '%(X)s ma.typeof fn() -> int', '%(X)s ma.bump 2', '%(X)s ma.peek 202',
+    exp = ['%(X)s n 1', '%(X)s ma.peek 10101', '%(X)s n 5', '%(X)s ma.n 1', '%(X)s n 10', '%(X)s ma.n 1', '%(X)s peek 0',
+           '%(X)s cell 9', '%(X)s ma.cell 1', '%(X)s ma.typeof fn() -> int', '%(X)s ma.bump 2', '%(X)s ma.peek 20202',
            '%(X)s ma.n 2', '%(X)s ma.cell 2', '%(X)s n 10', '%(X)s cell 9']
     ma = ('print "init ma:begin"\n' + decl_src("ma", True) + 'print "ma self " + ma_bump()\nprint "init ma:end"\n')
     ma_lines = ["init ma:begin", "ma self 1", "init ma:end"]
@@ -626,7 +629,7 @@ def local_copy_cases():
                      "main.ms": 'print "init main:begin"\nimport mb\nimport ma\nprint "main ma.n " + ma.ma_n\n'
                                 'print "main ma.peek " + ma.ma_peek()\nprint "init main:end"\n'}
             out = (["init main:begin", "init mb:begin"] + ma_lines + lines +
-                   ["init mb:end", "main ma.n 2", "main ma.peek 202", "init main:end"])
+                   ["init mb:end", "main ma.n 2", "main ma.peek 20202", "init main:end"])
             ev = [("miss", "mb"), ("miss", "ma"), ("hit", "ma"), ("hit", "ma")]
         yield "cat:imported_name_is_local_copy@" + where, files, out, ev
 
